@@ -159,7 +159,7 @@ func vSameAV(v vspec.Val, av *dynamodb.AttributeValue) bool {
 	case "S":
 		return *av.S == v.S
 	case "N":
-		return vNumIs(*av.N, v.N)
+		return v.NTxt == "" && vNumIs(*av.N, v.N) || v.NTxt != "" && vspec.SameNumeral(*av.N, v.NTxt)
 	case "B":
 		return vBytesEq(av.B, v.B)
 	case "BOOL":
